@@ -195,6 +195,30 @@ SEEDS.update({
                   needs="exchange=False with an exchange_interval that does not divide proposals",
                   caught_by="exchange_interval handed over with exchange off (added after this seed was first missed)"),})
 
+# fourth round: a clause or a region of the quantifier that none of the three earlier seeds touched; triggers other than dtypes / in-place reuse / caches requested
+SEEDS.update({
+    "C01_4": dict(change="leapfrog skips the corrector when the target itself has no bounds (a CompositeDistribution carries them on its components)",
+                  needs="integrator lf on a CompositeDistribution whose components are bounded and which has no box of its own",
+                  caught_by="composite targets carrying the box on their components (added after this seed was first missed): bit-exact trajectory comparison, not-reflected"),
+    "C02_4": dict(change="RWMH draws a proposal again (up to 10 times) when it falls outside the target's bounds",
+                  needs="RWMH on a target with bounds of its own and a draw that overshoots a bound",
+                  caught_by="bounded hash targets under RWMH (added after this seed was first missed): rwmh-proposal oracle on the first normal draw of the transition"),
+    "C03_4": dict(change="BFGS mass matrix: the failure path of update() restores the metric from a backup taken before the previous successful update",
+                  needs="an update refused for ill-conditioning after at least one applied update",
+                  caught_by="refused ill-conditioned updates in the BFGS histories (added after this seed was first missed): bfgs-factor-stale"),
+    "C04_4": dict(change="misfit_bounds: 'not any(x >= lower)' instead of 'not all(...)': +inf only if every coordinate violates a bound",
+                  needs="a box-truncated target in two or more dimensions under RWMH (or HMC without corrector involvement)",
+                  caught_by="forced truncated-target configurations under both samplers (added after this seed was first missed): moment search + misfit outside the box"),
+    "C05_4": dict(change="AdditiveDistribution/BayesRule.gradient loops over a term list built in __init__; add_distribution only extends separate_distributions",
+                  needs="a posterior extended with add_distribution() after construction",
+                  caught_by="distgen builds 40% of the additive nodes through add_distribution (added after this seed was first missed): gradient-vs-misfit enclosure"),
+    "C06_4": dict(change="base corrector rewritten as whole-vector mask arithmetic (0 * inf = nan for infinite bound entries)",
+                  needs="an infinite entry in the bounds vector of the distribution itself and a call of the corrector",
+                  caught_by="co-execution of the bounds model (boxes with infinite entries were generated already); the mirror oracle added afterwards names the failing point: corrector-not-mirror"),
+    "C07_4": dict(change="default_rng(seed or None): seed 0 becomes an unseeded generator",
+                  needs="seed=0 and a comparison of two runs with that seed",
+                  caught_by="own-generator thinning cases with seed 0 in C07 and seed 0 among the C09 seeds (both added after this seed was first missed)"),})
+
 
 def main():
     ids = sys.argv[1:] or sorted(SEEDS)
